@@ -239,6 +239,10 @@ def run_worker(job, r):
                     srv.force_other = gen.rnd_imprint(rng, ha) if rng.random() < 0.7 else h[:-1] + bytes([h[-1] ^ 1])
                     ctxdoc = ' ctxdoc=' + srv.force_other.hex()
                 r.count('sign_with_policy_and_used_context')
+            elif rng.random() < 0.3:
+                # the convenience entry points (KSI_createSignature, KSI_Signature_create / _createAggregated / _signWithPolicy): the same guarantees
+                ctxdoc = ' api=' + (rng.choice(['create', 'sigcreate', 'signwp', 'createaggr']) if L == 0 else 'createaggr')
+                r.count('sign_through_convenience_entry_point')
             q = cmd('sign 0 0 %s lvl=%d%s' % (h.hex(), L, ctxdoc))
             rc, sig = q.rc, q.get('sig')
             if q.get('vcdirty'):
